@@ -1251,7 +1251,7 @@ func (schema *Schema) visitEnumOperation(settings *schemaValidationSettings, val
 					return
 				}
 			default:
-				if reflect.DeepEqual(v, value) {
+				if reflect.DeepEqual(v, jsonNumbersToFloat64(value)) {
 					return
 				}
 			}
@@ -1269,6 +1269,30 @@ func (schema *Schema) visitEnumOperation(settings *schemaValidationSettings, val
 		}
 	}
 	return
+}
+
+// jsonNumbersToFloat64 returns value with the json.Number nested in arrays and objects
+// converted to float64, the form in which enum values are decoded.
+func jsonNumbersToFloat64(value any) any {
+	switch v := value.(type) {
+	case json.Number:
+		if f, err := v.Float64(); err == nil {
+			return f
+		}
+	case []any:
+		out := make([]any, len(v))
+		for i, item := range v {
+			out[i] = jsonNumbersToFloat64(item)
+		}
+		return out
+	case map[string]any:
+		out := make(map[string]any, len(v))
+		for k, item := range v {
+			out[k] = jsonNumbersToFloat64(item)
+		}
+		return out
+	}
+	return value
 }
 
 func (schema *Schema) visitNotOperation(settings *schemaValidationSettings, value any) (err error) {
